@@ -128,3 +128,41 @@ func vfH_c08_skip() {
 		vfCover("err")
 	}
 }
+
+// H08-long: a binary / string value whose declared length (vfLen: thousands of bytes, read in chunks) exceeds the bytes
+// that follow (vfLen2 of them): always an error of the unexpected-EOF class - never plain io.EOF, a byte was consumed -
+// whatever the position of the cut relative to the read chunks; allocation stays bounded by what is available. With
+// vfLen2 == vfLen the value is returned intact.
+func vfH_c08_long() {
+	s := &vfSink{}
+	p := proto()
+	p.NewWriter(s).WriteLength(vfLen)
+	in := append([]byte(nil), s.b...)
+	c := vfByte()
+	for i := 0; i < vfLen2; i++ {
+		in = append(in, 'x')
+	}
+	if vfLen2 > 0 {
+		in[len(in)-1] = c
+	}
+	src, _ := source(in)
+	r := p.NewReader(src)
+	vfAllocLimit(2*len(in) + 16384)
+	var got []byte
+	var err error
+	if vfShape == 0 {
+		got, err = r.ReadBytes()
+	} else {
+		var str string
+		str, err = r.ReadString()
+		got = []byte(str)
+	}
+	if vfLen2 >= vfLen {
+		vfAssert(err == nil && len(got) == vfLen && got[vfLen-1] == c, "complete-value-returned")
+		vfCover("ok")
+	} else {
+		vfAssert(err != nil, "truncated-value-is-an-error")
+		vfAssert(err != io.EOF, "no-plain-EOF-after-the-length-was-consumed")
+		vfCover("err")
+	}
+}
